@@ -146,7 +146,7 @@ def static_check(pid, tier, kinds, cert, rule_kind, rule, sems="GR,CO,PR,ST,SST,
         if lists > 1:
             afs = [a for a in afs if a["n"] <= (4 if lists >= 3 else 6)]
         opts = dict(sems=sems, kinds=kinds, cert=cert, present=present, oracle=oracle, budget=budget, lists=lists,
-                    cap=300 if sname in ("ref3", "iso4") else 400)       # SAT calls per query before it is declared non-terminating
+                    cap=300 if sname in ("ref3", "iso4") else (1500 if sname == "mid" else 400))   # SAT calls per query before it is declared non-terminating (legitimate maxima observed: 15 / 57 / 39)
         if extra:
             opts.update(extra)
         rname = "%s_%s_%s_%s" % (pid, sname, present.replace(",", "+")[:14], oracle)
@@ -217,10 +217,32 @@ def c07(tier):
 
 
 def replay(path):
+    """re-executes the case of a replay file: for events of the static solvers only that framework and query are re-run and re-judged;
+    for the other trace families the whole check is re-run with the recorded seed and tier"""
     r = json.load(open(path))
-    log("replay of %s: re-running check %s (tier %s, seed %s)" % (path, r["property"], r.get("tier"), r.get("seed")))
     os.environ["VERIF_SEED"] = str(r.get("seed", 1))
-    return CHECKS[r["property"]](r.get("tier", "quick"))
+    ev, ctx, pid = r.get("event") or {}, r.get("context") or {}, r["property"]
+    if ev.get("ev") == "q" and "att" in ctx and "n" in ctx and "sem" in ev and "args" in ev and not ev.get("isolated"):
+        res = Result(pid + "_replay", r.get("tier", "quick"))
+        vlib.build_harness()
+        a = {"n": ctx["n"], "att": ctx["att"], "tag": ctx.get("tag", "replay")}
+        present = ctx.get("present", "compact")
+        if present not in ("compact", "sparse", "dup", "padded"):
+            present = "compact"
+        lists = max(1, len(ev["args"]))
+        log("replay of %s: %s-%s args=%s cert=%s on the recorded framework (%s presentation)" % (path, ev["kind"], ev["sem"], ev["args"], ev.get("cert"), present))
+        segs = run_static(res, "replay", [a], sems=ev["sem"], kinds=ev["kind"], cert="yes" if ev.get("cert") else "no", present=present,
+                          oracle="dfs", budget=400, lists=lists, cc="yes", cap=400)
+        t1, st = vlib.judge("TraceStatic.tla", segs, res.wd, "replay", shards=1)
+        hits = [t for t in t1 if t["pred"].split(":")[0] == pid and (t["event"].get("args") == ev["args"] or t["event"].get("ev") == "cc")]
+        for t in hits[:5]:
+            log("VIOLATION property=%s replay=%s" % (pid, path))
+            log("  pred=%s event=%s" % (t["pred"], json.dumps(t["event"])[:300]))
+        if not hits:
+            log("replay: the recorded violation does not reproduce on the current tree")
+        return 1 if hits else 0
+    log("replay of %s: re-running check %s (tier %s, seed %s)" % (path, pid, r.get("tier"), r.get("seed")))
+    return CHECKS[pid](r.get("tier", "quick"))
 
 
 # ----------------------------------------------------------------------------------------------------------------
@@ -430,7 +452,7 @@ def c18(tier):
     nt = set()
     for name, afs, present, budget, lists in plan:
         segs = run_static(res, "C18_" + name, afs, sems="CO,PR,ST,SST,STG,ID", kinds="SE,DC,DS", cert="both", present=present,
-                          oracle="dfs", budget=budget, lists=lists, cc="yes", cap=400)
+                          oracle="dfs", budget=budget, lists=lists, cc="yes", cap=1500 if name == "mid" else 400)
         # padded presentation (components of 40-80 arguments): termination only, the bound needs the base family of the real component
         segs = [[e for e in s if e["ev"] == "af" or (e["ev"] == "cc" and present != "padded") or (e["ev"] == "q" and e["out"]["capped"])] for s in segs]
         t1, st = vlib.judge("TraceStatic.tla", segs, res.wd, "C18_" + name, shards=8)
